@@ -79,7 +79,7 @@ func c08One(c *core.Ctx, cs srcCase) {
 			}
 			return
 		}
-		c.Report("a valid program reports errors after a change of trivia ("+kind+"): "+errClass(res.Errs[0].Msg), mkWhat("%s: %q vs %q", errList(res.Errs), cs.Base, cs.Src), cs)
+		c.Report("a valid program reports errors after a change of trivia ("+kind+")", mkWhat("%s: %q vs %q", errList(res.Errs), cs.Base, cs.Src), cs)
 		return
 	}
 	c.Stat("layouts_compared", 1)
